@@ -92,7 +92,7 @@ static ASMJIT_NOINLINE Error ArenaVector_reserve_with_byte_size(ArenaVectorBase&
   }
 
   self._data = new_data;
-  self._capacity = uint32_t(allocated_capacity);
+  self._capacity = uint32_t(Support::min<size_t>(allocated_capacity, 0xFFFFFFFFu));
 
   return Error::kOk;
 }
